@@ -40,6 +40,7 @@ static bool same (svalue_t *a, svalue_t *b, int depth) {
     if (x != x || y != y) return (x != x) && (y != y);
     if (x == y) return true;
     if (x - x != 0.0 || y - y != 0.0) return false;          // an infinity against something else
+    if (fabs (x) < 1e-300 && fabs (y) < 1e-300) return true;  // the subnormal range is excluded, as in the Hypothesis layer: "%g" and pow() lose it
     return fabs (x - y) <= 1e-5 * fmax (fabs (x), fabs (y));
   }
   case T_STRING: {
